@@ -2,7 +2,7 @@
 import concurrent.futures as cf
 import os
 from .. import core
-from .c05 import run_sharded
+from .c05 import run_sharded, sim_stats
 
 LEVEL = "model_checking"
 
@@ -31,8 +31,8 @@ def models(chk, thorough):
                 chk.add_mc(r)
     if thorough:
         chk.add_mc(core.model_check("sieveproto/SieveProto.tla", "MC_SieveProto_par_big.cfg", workers=4, timeout=1700))
-        chk.add_mc(core.model_check("sieveproto/SieveProto.tla", "MC_SieveProto_w3.cfg", workers=4, timeout=1500,
-                                    extra=["-simulate", "num=20000", "-depth", "400"]))
+        chk.add_mc(sim_stats(core.model_check("sieveproto/SieveProto.tla", "MC_SieveProto_w3.cfg", workers=4, timeout=1500,
+                                              extra=["-simulate", "num=5000", "-depth", "400"])))
 
 
 def replay_keep(trace, replay):
